@@ -11,6 +11,13 @@ pub mod inp;
 #[macro_use]
 pub mod macros;
 
+pub mod state;
+pub mod vstore;
+
+pub mod c03;
+pub mod c05;
+pub mod c09;
+pub mod c14;
 pub mod c18;
 pub mod selftest;
 
